@@ -480,6 +480,39 @@ def check_lookup_stats_free(run, ctx):
     return n
 
 
+def check_lookup_purge_pairing_free(run, ctx, rule='C18-M6'):
+    """without any oracle (each test on the way may answer either way, so also when a first look says "expired" and a second
+    look under another lock says "fresh"): a lookup path that takes the requested key out of the order queue without
+    re-appending it also takes the entry out of the store.  An entry that stays stored without a queue slot is invisible to
+    the limit test and can never be evicted.  (The opposite - entry gone, slot left - is the tolerated orphan.)"""
+    C = Core(ctx)
+    n = 0
+    for flav, adt in FLAVOURS:
+        get = C.method(adt, 'get')
+        if get is None:
+            continue
+        for p_ in range(6):
+            for lim in (0, 1):
+                a = {'policy': p_, 'limit': lim, 'max_memory': 0, 'ttl': 1}
+                w = C.weigher(a, {}, root=get)
+                sp = w.spec(get)
+                bad = None
+                for n_, vs in sp.path_totals().items():
+                    for v in vs:
+                        d = _vec(v)
+                        if d['Qrem'] >= 1 and d['Q>'] + d['Q<'] == 0 and d['Srepl'] + d['S-'] == 0:
+                            bad = d
+                n += 1
+                key = '%s/%s/limit=%s' % (flav, POL[p_], 'Some' if lim else 'None')
+                if bad is not None:
+                    run.bad(rule, '%s/%s/queue-slot-dropped-entry-kept' % (flav, POL[p_]), 'some path of %s removes the key from the order queue (without re-appending it) but leaves its entry in '
+                            'the store (%s): the entry is no longer counted by the limit test and can never be evicted' % (get.name, describe(a)), site=get.name,
+                            oracle='queue slot removed without re-queue => store entry removed')
+                else:
+                    run.ok(rule, key, 'no path drops the queue slot of a key whose entry stays stored')
+    return n
+
+
 def check_lookup_removes_nothing_unbounded(run, ctx):
     """C03-E1 (lookup part): with no limit / memory bound / ttl no lookup path removes anything"""
     rows, anchors = lookup_scenarios(ctx)
